@@ -23,6 +23,7 @@ RULES_DOC["X7"] = common.X7_DOC
 RULES_DOC["X4"] = common.X4_DOC
 RULES_DOC["R5"] = "key identities are disjoint: statically initialised (internal) keys have distinct ids below the first dynamic id, and ABT_key_create hands out ids from a counter that starts above them (a user key never aliases the migration / stackable-scheduler key)"
 RULES_DOC["R6"] = "the key-table size cannot be configured to 0: the lower bound of the KEY_TABLE_SIZE loader is at least 1 (a table of zero slots is indexed with id & (0 - 1))"
+RULES_DOC["R10"] = "a key-table pointer loaded from its slot is dereferenced only under ABTI_ktable_is_valid(): the slot holds the LOCKED marker (0x1) while another stream performs the first set on the unit, and a reader that only tests for NULL dereferences it"
 RULES_DOC["R9"] = "= C01.R2: a new work unit's descriptor -- including p_keytable = NULL -- is completely written before the unit is pushed to a pool: a store after the push races with the unit already running on another stream and wipes the key table it just created"
 RULES_DOC["R8"] = "key-table memory carved from a descriptor block (table, then elements) stays within the bytes ABTI_mem_alloc_desc hands out: block size constant + header <= offset of the malloc'ed/pool flag word (constants folded from the facts, both size tests and both extra_mem_size computations)"
 RULES_DOC["R7"] = "who-may-write census of ABTI_thread::p_keytable: only the constructors (NULL / initial table), the key-table setters (publication through the slot pointer) and the free path touch it -- a revive keeps the table and its values"
@@ -439,6 +440,32 @@ def rule_R8(P, rep):
     rep.need(n >= 3, "only %d block-size constants found" % n)
 
 
+def rule_R10(P, rep):
+    """A key-table pointer read from a slot has three states: NULL, the LOCKED marker (0x1) while another thread creates
+    the table, and a real table.  Every access through a pointer that was loaded from the slot is governed by
+    ABTI_ktable_is_valid(), not by a mere non-NULL test."""
+    from abtverif import ctrldep
+    n = 0
+    for F in sorted(P.functions.values(), key=lambda f: (f.file, f.line)):
+        if not F.blocks:
+            continue
+        seen = set()
+        for i, nd in enumerate(F.nodes):
+            if not nd or nd.get("k") != "mem" or nd.get("r") != "ABTI_ktable" or F.block_of(i) is None:
+                continue
+            base = canon.expr(F, nd["b"])
+            if not re.match(r"^ABTD_atomic_\w*load_ptr\(", base) or base in seen:
+                continue
+            seen.add(base)
+            n += 1
+            conds = ctrldep.conditions(F, i)
+            ok = any(lab.startswith("ABTI_ktable_is_valid(") and val is not False for lab, val, _a in conds)
+            rep.ob("R10", "%s dereferences the loaded key-table pointer only under ABTI_ktable_is_valid()" % F.name, ok,
+                   "governing tests: %s -- while another thread creates the table the slot holds the LOCKED marker (0x1), "
+                   "which is not NULL" % [lab[:60] for lab, _v, _a in conds][:4], loc=F.loc(i), site="ktable-valid/%s" % F.name)
+    rep.need(n >= 1, "no access through a loaded key-table pointer found")
+
+
 def run(P, rep, tier):
     common.rule_X7(P, rep, records=('ABTI_key',))
     common.rule_X4(P, rep)
@@ -450,5 +477,6 @@ def run(P, rep, tier):
     rule_R6(P, rep)
     rule_R7(P, rep)
     rule_R8(P, rep)
+    rule_R10(P, rep)
     from . import C01
     common.borrow(rep, P, C01.rule_R1_R2, "R9", only=("R2",))
